@@ -177,6 +177,68 @@ func gridCases(emit func(Case)) int {
 	return n
 }
 
+// idleCase: a POLL (or STREAM) script on a server with a small send timeout in
+// which the client idles for about three times that timeout after a received
+// sync before its next trigger / a later update / the end of the script.
+func (g *gen) idleCase() Case {
+	const timeoutMS, gapMS = 100, 320
+	r := g.r
+	mode := 2
+	if r.Chance(1, 4) {
+		mode = 0
+	}
+	var c Case
+	for tries := 0; ; tries++ {
+		c = g.randomCase(mode, false)
+		ok := c.Req != nil && c.Req.HasSub && c.Req.Prefix != nil && (c.Req.Prefix.Target == "*" || c.Req.Prefix.Target == "t1")
+		for _, o := range c.Ops {
+			if o.Burst != 0 {
+				ok = false
+			}
+		}
+		if ok || tries > 50 {
+			break
+		}
+	}
+	c.TimeoutMS = timeoutMS
+	after := false
+	for i := range c.Ops {
+		if c.Ops[i].K == "sub" {
+			after = true
+			continue
+		}
+		if after {
+			c.Ops = c.Ops[:i]
+			break
+		}
+	}
+	// after the Subscribe step: idle, then a trigger (POLL) or an update (STREAM);
+	// sometimes a second round without a gap in between; then idle before the end
+	next := func(idle int) {
+		if mode == 2 {
+			if r.Chance(1, 2) {
+				c.Ops = append(c.Ops, g.cacheStep(c.Targets, false, false))
+			}
+			c.Ops = append(c.Ops, Step{K: "poll", IdleMS: idle})
+		} else {
+			st := g.cacheStep(c.Targets, false, false)
+			st.IdleMS = idle
+			c.Ops = append(c.Ops, st)
+		}
+	}
+	if r.Chance(1, 3) {
+		next(0)
+	}
+	next(gapMS)
+	if r.Chance(1, 2) {
+		next(0)
+	}
+	if r.Chance(1, 2) {
+		c.IdleEndMS = gapMS
+	}
+	return c
+}
+
 func familyOf(base string, c Case) string {
 	for _, o := range c.Ops {
 		if o.Burst != 0 {
@@ -203,7 +265,7 @@ func nontrivial(c *Case) bool {
 func main() {
 	o := vh.ParseFlags()
 	quietLogs()
-	meta := vh.NewMeta("corpus cases; grid: one fixed two-target cache (origins, keyed element, atomic container), every ONCE query path over {a,b,*} of length 0..3 x origin placement {none, prefix oc, path oc, prefix foo, first element in the prefix} x target {t1,*}; random: 1-3 targets, 2-10 initial notifications (single/multi update, atomic, delete, keyed elements, origins in prefix or path), one request (ONCE/POLL/few STREAM; 1-3 subscription paths of length 0..3 with globs at any position, origins in prefix/path incl. conflicts, missing path/prefix/target, unknown target, updates_only), POLL: 0-3 triggers with 0-2 cache edits (updates, deletes, target removal) before each; in 1/6 of the ONCE/POLL cases the walk is overlapped by 2-6 concurrent single-update/delete writes (one writer goroutine per target), judged by the weak clause. distinct = distinct inputs; non-trivial = the RPC ended OK and at least one update was delivered")
+	meta := vh.NewMeta("corpus cases; grid: one fixed two-target cache (origins, keyed element, atomic container), every ONCE query path over {a,b,*} of length 0..3 x origin placement {none, prefix oc, path oc, prefix foo, first element in the prefix} x target {t1,*}; random: 1-3 targets, 2-10 initial notifications (single/multi update, atomic, delete, keyed elements, origins in prefix or path), one request (ONCE/POLL/few STREAM; 1-3 subscription paths of length 0..3 with globs at any position, origins in prefix/path incl. conflicts, missing path/prefix/target, unknown target, updates_only), POLL: 0-3 triggers with 0-2 cache edits (updates, deletes, target removal) before each; in 1/6 of the ONCE/POLL cases the walk is overlapped by 2-6 concurrent single-update/delete writes (one writer goroutine per target), judged by the weak clause; idle-timeout: 22 (thorough 160) POLL/STREAM scripts on a server with WithTimeout(100ms) in which the client idles 320 ms after a received sync before the next trigger / update / EOF. distinct = distinct inputs; non-trivial = the RPC ended OK and at least one update was delivered")
 	e := &emitter{dir: o.Out, cf: newCaseFile(), meta: meta, limit: 255, require: "Subscribe.C05Check", nontriv: nontrivial}
 
 	if o.Replay != "" {
@@ -244,7 +306,7 @@ func main() {
 	meta.Extra["grid_cases"] = ng
 
 	r := vh.NewRand(o.Seed)
-	nrand := 2600
+	nrand := 2400
 	if o.Thorough() {
 		nrand = 40000
 	}
@@ -265,6 +327,14 @@ func main() {
 			e.add("random-other-mode", g.randomCase(m, o.Thorough()))
 		}
 	}
+	nidle := 22
+	if o.Thorough() {
+		nidle = 160
+	}
+	for i := 0; i < nidle; i++ {
+		e.add("idle-timeout", newGen(r.Fork()).idleCase())
+	}
+	meta.Extra["idle_timeout_cases"] = nidle
 	e.flush()
 	if meta.Samples == nil {
 		meta.Samples = []interface{}{}
